@@ -4578,7 +4578,7 @@ KNOWN_EXT:
                             return PS_PARSE_FAIL;
                         }
                         if (parseGeneralNames(pool, &p, len, extEnd,
-                                &extensions->crlDist, -1) > 0)
+                                &extensions->crlDist, -1) < 0)
                         {
                             psTraceCrypto("dist gen name parse fail\n");
                             return PS_PARSE_FAIL;
